@@ -210,14 +210,18 @@ def gen_damages(rng, subj, tier):
     else:
         lens = set([0, 1, n - 1, n - 2, n // 2])
         hdr_end = 165 if subj["kind"] == "ao" else (68 + 165 if subj["kind"] == "al" else 64)
-        for lo, hi in subj.get("hdr_ranges", [])[1:]:
-            for L in rng.sample(list(range(lo, hi)), 24):
+        for lo, hi in subj.get("hdr_ranges", []):
+            for L in range(lo, min(hi, n)):
                 lens.add(L)
         if tier == "thorough":
             for L in range(0, min(n, hdr_end + 1)):
                 lens.add(L)
-        for L in rng.sample(list(range(0, min(n, hdr_end + 1))), min(24, min(n, hdr_end + 1))):
-            lens.add(L)
+        if subj["kind"] in ("ao", "al"):	# every length inside the header / section table / archive headers
+            for L in range(0, min(n, hdr_end + 1)):
+                lens.add(L)
+        else:
+            for L in rng.sample(list(range(0, min(n, hdr_end + 1))), min(24, min(n, hdr_end + 1))):
+                lens.add(L)
         for off, ln in subj["trace"]:		# write boundaries and torn writes
             lens.add(off)
             lens.add(off + ln)
